@@ -73,8 +73,8 @@ def dev_fields(lib):
         fs, tys = adt[0].get('fields', []), adt[0].get('ftys', [])
         role = {}
         for fn_, ty in zip(fs, tys):
-            if 'Vec<(' in ty and 'f64' in ty:
-                role['nodes'] = fn_
+            if ty.startswith(('std::vec::Vec<', 'Vec<')) and ('f64' in ty or any(n2.split('::')[-1] in ty and 'f64' in (a2[0].get('ftys') or []) for n2, a2 in lib.adts.items() if n2.startswith('regret::') and len(a2) == 1)):
+                role['nodes'] = fn_       # the registered nodes with their reach: pairs, or a small private struct
             elif ty == 'f64':
                 role['value'] = fn_
             elif ty == 'usize':
@@ -188,7 +188,7 @@ def run(ctx):
         ok = q.is_call(r, 'max') and 'f64' in r[1] and len(r[2]) == 2
         if ok:
             args = [strip_refs(a) for a in r[2]]
-            if {tuple(sorted(q.tags(a))) for a in args} == {(0,), (1,)} and all(a[0] == 'cidx' and strip_refs(a[1])[0] == 'field' for a in args) and len({strip_refs(a[1])[2] for a in args}) == 1:
+            if {tuple(sorted(q.tags(a))) for a in args} == {(0,), (1,)} and all(a[0] in ('cidx', 'index') and strip_refs(a[1])[0] == 'field' for a in args) and len({strip_refs(a[1])[2] for a in args}) == 1:
                 regret_slots = ('array', strip_refs(args[0][1])[2])
             elif all(a[0] == 'field' and strip_refs(a[1])[0] == 'param' for a in args) and len({a[2] for a in args}) == 2 and util_field not in {a[2] for a in args}:
                 regret_slots = ('fields', {a[2] for a in args})
@@ -433,6 +433,23 @@ def run(ctx):
                     nonempty = True
             ctx.verdict(nonempty, rule, rule + ':reached-only', 'the initial resolution queue holds only infosets with no pending later infoset *and* at least one registered node', flt.where(0),
                         'filter tests the registered-node list for emptiness: %s' % nonempty, breaks='an infoset never reached under the profile is resolved with zero nodes and its predecessor is queued (and resolved) twice: wrong best-response value')
+        # (6d) the value returned is the continuation value of the root under the resolved infosets, on every path
+        rule = 'C01.best-response-from-root'
+        vals0 = q.multi_def_values(f, 0) or [(0, [], f.local_expr(0))]
+        kinds0 = []
+        for bi0, cs0, v0 in vals0:
+            v0 = strip_refs(v0)
+            if q.is_call(v0, 'next_infoset_search') and v0[2] and strip_refs(v0[2][0]) == ('param', 1, f.local_name(1)):
+                kinds0.append('search')
+            elif v0[0] == 'const':
+                kinds0.append('constant %s' % v0[1])
+            else:
+                kinds0.append('?')
+        if '?' in kinds0 and not any(k.startswith('constant') for k in kinds0):
+            ctx.anchor_lost(rule, 'optimal_deviations: returned value', str(kinds0))
+        else:
+            ctx.verdict(all(k == 'search' for k in kinds0), rule, rule, 'optimal_deviations returns the continuation value of the root node computed by the search — on every path (a player without decisions still has a value: the expected payoff)',
+                        f.where(vals0[0][0]), 'returned values: %s' % kinds0, breaks='a player with no (multi-action) infosets gets best-response value 0: the regret then depends on additive payoff shifts')
         # (7) infoset value
         rule = 'C01.infoset-value'
         divs = list(e2.f64_divisions(f))
